@@ -16,3 +16,54 @@ pub mod prog;
 pub mod rt;
 pub mod varc;
 pub mod fuzzdec;
+
+/// Allocation accounting for the sequential engines: the number of live blocks of one distinctive
+/// size (that of the reference-counted allocation `mixseq` uses) per thread. std cannot report
+/// the weak count of an allocation whose value is gone, so a leaked *weak* reference of a dead
+/// target is invisible to every count oracle; it is not invisible to the allocator - the block is
+/// never freed.
+pub mod alloc_count {
+    use std::alloc::{GlobalAlloc, Layout, System};
+    use std::cell::Cell;
+
+    pub const TRACKED_SIZE: usize = 1000;
+    thread_local! {
+        static LIVE: Cell<isize> = const { Cell::new(0) };
+    }
+    pub fn live() -> isize {
+        LIVE.try_with(|l| l.get()).unwrap_or(0)
+    }
+    pub struct Counting;
+    unsafe impl GlobalAlloc for Counting {
+        unsafe fn alloc(&self, l: Layout) -> *mut u8 {
+            if l.size() == TRACKED_SIZE {
+                let _ = LIVE.try_with(|c| c.set(c.get() + 1));
+            }
+            System.alloc(l)
+        }
+        unsafe fn dealloc(&self, p: *mut u8, l: Layout) {
+            if l.size() == TRACKED_SIZE {
+                let _ = LIVE.try_with(|c| c.set(c.get() - 1));
+            }
+            System.dealloc(p, l)
+        }
+        unsafe fn alloc_zeroed(&self, l: Layout) -> *mut u8 {
+            if l.size() == TRACKED_SIZE {
+                let _ = LIVE.try_with(|c| c.set(c.get() + 1));
+            }
+            System.alloc_zeroed(l)
+        }
+        unsafe fn realloc(&self, p: *mut u8, l: Layout, new_size: usize) -> *mut u8 {
+            if l.size() == TRACKED_SIZE {
+                let _ = LIVE.try_with(|c| c.set(c.get() - 1));
+            }
+            if new_size == TRACKED_SIZE {
+                let _ = LIVE.try_with(|c| c.set(c.get() + 1));
+            }
+            System.realloc(p, l, new_size)
+        }
+    }
+}
+
+#[global_allocator]
+static GLOBAL: alloc_count::Counting = alloc_count::Counting;
